@@ -32,7 +32,14 @@ VARIES = (
     "metrics that return one re-used buffer or are named like methods; failing calls inside call sequences; user subclasses "
     "with their own constructor or overridden rates; curves of 65536+ points and counts at the top of narrow integer types; "
     "thousands of scores 1e-12 apart inside gaps of 1e5+ other scores; the largest finite float as score; proportion sampling "
-    "checked statistically")
+    "checked statistically; results that alias or are views of caller arrays; missing labels (None/NaN) and date-typed "
+    "classes; 1e7-pair pointwise inputs; classes consisting of the two scores -1e308/1e308; neighbouring floats at powers of "
+    "two; conventions (score_class/equal_class) re-assigned as plain strings after construction; crossings near the end of a "
+    "packed run; scores in int8/int16/int32 at the ends of the type's range; sources with a class that has easy samples only; "
+    "metrics whose result type differs between groups or that return transposed/Fortran-ordered arrays; infinite user "
+    "thresholds; counts held as np.int8(127)/np.uint8(255); callables that depend on the whole vector of evaluation points; "
+    "2-D label/score arrays; long-double values that differ from a bound by less than double precision; models edited by the "
+    "caller between two identical calls; integer- and bool-typed sample values for interpolation")
 for pid, p in props.items():
     wt = f"{root}/{pid}"
     if not os.path.exists(wt):
@@ -45,7 +52,7 @@ for pid, p in props.items():
             prev.append(f"- {os.path.basename(d.rstrip('/'))}: {txt[:260]}")
     prevtxt = "\n".join(prev) if prev else "(none)"
     low = pid.lower()
-    txt = f"""You are helping to evaluate a verification effort for the Python library `score_analysis` (martinsbruveris/score-analysis: binary/multiclass classification metrics, threshold setting, EER, AUC, ROC curves, bootstrap confidence intervals). Your job is to act as a realistic source of *regressions*: produce TWO independent small changes to the library, each of which breaks the semantic property below while the library still imports and its existing test-suite still passes. This is a SEVENTH round. Six earlier rounds produced the changes summarised at the end, and the verification effort caught all of them in the end; by now it varies {VARIES}. Find something it still does not look at. Take your time to read the code the property depends on line by line and look for an input condition *inside the stated domain* that none of the above would produce, an interaction between two functions, or a semantic slip (wrong one of two similar quantities, off-by-one in a rarely taken branch, a condition that is slightly too wide or too narrow) that only shows for a structured kind of input.
+    txt = f"""You are helping to evaluate a verification effort for the Python library `score_analysis` (martinsbruveris/score-analysis: binary/multiclass classification metrics, threshold setting, EER, AUC, ROC curves, bootstrap confidence intervals). Your job is to act as a realistic source of *regressions*: produce TWO independent small changes to the library, each of which breaks the semantic property below while the library still imports and its existing test-suite still passes. This is an EIGHTH round. Seven earlier rounds produced the changes summarised at the end, and the verification effort caught all of them in the end; by now it varies {VARIES}. Find something it still does not look at. Take your time to read the code the property depends on line by line and look for an input condition *inside the stated domain* that none of the above would produce, an interaction between two functions, or a semantic slip (wrong one of two similar quantities, off-by-one in a rarely taken branch, a condition that is slightly too wide or too narrow) that only shows for a structured kind of input.
 
 ## The property ({p['id']}: {p['title']})
 Statement: {p['statement']}
